@@ -194,13 +194,7 @@ theorem grow_resetKey (s : St) (k : Nat) : Grow s (resetKey s k).1 := by
     have h1 := grow_cancelOpt s r.gen r.cancelOf
     have h2 := grow_newRec (cancelOpt s r.gen r.cancelOf) k r (by simpa using hk)
     have h3 := grow_startKey (newRec (cancelOpt s r.gen r.cancelOf) k r.gen) k false
-    have h4 : Grow (startKey (newRec (cancelOpt s r.gen r.cancelOf) k r.gen) k false)
-        (resetTail s (startKey (newRec (cancelOpt s r.gen r.cancelOf) k r.gen) k false) k r.gen) := by
-      unfold resetTail
-      split
-      · exact grow_modG _ r.gen _ (fun _ _ => ⟨rfl, Or.inl rfl⟩)
-      · exact Grow.refl _
-    exact ((h1.trans h2).trans h3).trans h4
+    exact (h1.trans h2).trans h3
 
 theorem grow_restartKey (s : St) (k : Nat) : Grow s (restartKey s k).1 := by
   unfold restartKey
